@@ -366,6 +366,12 @@ void EPoller::CheckDescriptor(struct epoll_event *event,
       epoll_data->read_descriptor->PerformRead();
     } else if (epoll_data->write_descriptor) {
       epoll_data->write_descriptor->PerformWrite();
+    } else if (epoll_data->connected_descriptor &&
+               !epoll_data->connected_descriptor->IsClosed()) {
+      // The remote end hung up but data sent before that is still queued.
+      // Deliver it first; the close is reported once the descriptor has been
+      // drained (EPOLLHUP is level triggered), same as SelectPoller.
+      epoll_data->connected_descriptor->PerformRead();
     } else if (epoll_data->connected_descriptor) {
       ConnectedDescriptor::OnCloseCallback *on_close =
           epoll_data->connected_descriptor->TransferOnClose();
